@@ -475,6 +475,10 @@ func (in *Interp) global(g *ssa.Global) *value {
 	return p
 }
 
+var skipInit = map[string]bool{"errors": true, "strings": true, "bytes": true, "sort": true, "strconv": true, "math": true, "math/bits": true,
+	"slices": true, "cmp": true, "github.com/pkg/errors": true, "internal/bytealg": true, "internal/stringslite": true, "internal/itoa": true,
+	"encoding/binary": true, "unicode/utf8": true, "unicode/utf16": true, "container/list": true}
+
 // ensureInit runs the package initialiser of executed packages (once per path).
 func (in *Interp) ensureInit(p *ssa.Package) {
 	if in.initDone[p] {
@@ -490,12 +494,22 @@ func (in *Interp) ensureInit(p *ssa.Package) {
 			}
 		}
 	}
-	if !in.eng.execPkg(p.Pkg.Path()) {
+	if !in.eng.execPkg(p.Pkg.Path()) || skipInit[p.Pkg.Path()] {
 		return
 	}
 	if initFn := p.Func("init"); initFn != nil && initFn.Blocks != nil {
 		save := in.curFrame
-		in.callFn(nil, token.NoPos, initFn, nil)
+		func() {
+			defer func() {
+				if r := recover(); r != nil {
+					if ee, ok := r.(*EngineError); ok {
+						panic(engineErr("%s [in init of %s]", ee.Msg, p.Pkg.Path()))
+					}
+					panic(r)
+				}
+			}()
+			in.callSSA(nil, token.NoPos, initFn, nil, nil)
+		}()
 		in.curFrame = save
 	}
 }
@@ -524,6 +538,9 @@ func (in *Interp) call(caller *frame, pos token.Pos, fn value, args []value) val
 func (in *Interp) callFn(caller *frame, pos token.Pos, fn *ssa.Function, args []value) value {
 	name := fn.String()
 	if fn.Pkg != nil && fn.Pkg.Pkg.Path() == rtPkgPath {
+		if fn.Name() == "init" {
+			return nil
+		}
 		return in.intrinsic(caller, fn.Name(), args, pos)
 	}
 	if s, ok := summaries[name]; ok {
